@@ -199,7 +199,10 @@ def check_grid_meshgrid(run, it, fq, ndim):
     ax = mg[2][0] if mg[2] else None
     lst = ax[1] if ax is not None and ax[0] == "star" else None
     bounds_of = None
-    okax = False
+    okax = None           # a form of the axis list this rule does not know is undecided, never wrong
+    args_ = list(mg[2])
+    if lst is not None and lst[0] in ("tuple", "list"):
+        args_, lst = list(lst[1]), None        # meshgrid(*(X, Y[, Z]), ...): the unpacked sequence is the argument list
     if lst is not None and lst[0] == "comp" and len(lst[3]) == 1 and not lst[3][0][2]:
         d, src, _ = lst[3][0]
         elt = lst[2]
@@ -209,9 +212,9 @@ def check_grid_meshgrid(run, it, fq, ndim):
             if lo[0] == "sub" and hi[0] == "sub" and lo[1] == hi[1] and lo[2] == ("tuple", (d, C(0))) and hi[2] == ("tuple", (d, C(1))) and num == ("sub", ng, d):
                 okax = okdom
                 bounds_of = lo[1]
-    elif lst is None and mg[2] and all(a[0] == "call" and a[1] == "numpy.linspace" for a in mg[2]):
-        okax = len(mg[2]) == ndim
-        for c, a in enumerate(mg[2]):
+    elif lst is None and args_ and all(a[0] == "call" and a[1] == "numpy.linspace" for a in args_):
+        okax = len(args_) == ndim
+        for c, a in enumerate(args_):
             lo, hi, num = a[2][:3]
             okax = tri_lazy(lambda: (True if (okax) else None), lambda: (True if (lo[0] == "sub") else None), lambda: (True if (hi[0] == "sub") else None), lambda: (True if (lo[1] == hi[1]) else None), lambda: eqv(lo[2], ("tuple", (C(c), C(0)))), lambda: eqv(hi[2], ("tuple", (C(c), C(1)))), lambda: eqv(num, ("sub", ng, C(c))))
             bounds_of = lo[1] if lo[0] == "sub" else None
@@ -221,7 +224,7 @@ def check_grid_meshgrid(run, it, fq, ndim):
     # which frame's bounds, stored for which frame
     tgt = ev.data["target"][2]
     in_loop = [it.loops[l] for l in ev.loops]
-    ok_slot = False
+    ok_slot = None
     detail = f"target [{show(tgt)[:40]}], bounds {show(bounds_of)[:60] if bounds_of else '?'}"
     if in_loop and in_loop[0].iter == ("call", "builtins.enumerate", (("attr", ("sym", "snapshots"), "snapshots"),), ()):
         n_term, snap = ("elem", in_loop[0].target, 0), ("elem", in_loop[0].target, 1)
